@@ -256,16 +256,28 @@ class DataFrame:
         """
         Select rows from the DataFRame. The DataFrame is filtered based on boolean array.
         """
-        return DataFrame(schema=self._schema, rows=(t for t, m in zip(self._rows, mask) if m))
+
+        def _inner_filter():
+            # read the rows when first iterated (as select does), not when filter is called
+            for t, m in zip(self._rows, mask):
+                if m:
+                    yield t
+
+        return DataFrame(schema=self._schema, rows=_inner_filter())
 
     def take(self, indexes) -> "DataFrame":
         """
         Select rows from the DataFrame. Rows are selected based on their appearance in the indexes
         list
         """
-        return DataFrame(
-            schema=self._schema, rows=(m for i, m in enumerate(self._rows) if i in indexes)
-        )
+
+        def _inner_take():
+            # read the rows when first iterated (as select does), not when take is called
+            for i, m in enumerate(self._rows):
+                if i in indexes:
+                    yield m
+
+        return DataFrame(schema=self._schema, rows=_inner_take())
 
     def row(self, i) -> Row:
         self.materialize()
